@@ -128,6 +128,8 @@ Definition run_utility (nm : name) (special : bool) (d : nat) (ex : bool) (saved
                                | [b] => if N.ltb b 2 then negb (N.eqb b 0) else errexit s
                                | _ => errexit s
                                end) s))
+  | NExec => done ex saved (set_status 0 s)
+  | NDot => utility_error special 1 ex saved s          (* the file does not exist *)
   | NBreak | NContinue =>
       match loop_operand args with
       | None => utility_error special 2 ex saved s
@@ -150,6 +152,7 @@ Definition run_utility (nm : name) (special : bool) (d : nat) (ex : bool) (saved
       | [st] => (Exiting, set_status st s)
       | _ => utility_error special 2 ex saved s
       end
+  | NWait => let '(st, s') := job_wait args s in done ex saved (set_status st s')
   | NUser _ => shell_error ErrNotFound 0 ex saved s
   end.
 
@@ -238,6 +241,29 @@ Fixpoint sem_cmd (n : nat) (d : nat) (ex : bool) (saved : option N) (c : cmd) (s
           else Some (Normal, set_status 0 (set_var x (hd_error fields) s))
       end
   | CReadonly x => Some (Normal, set_status 0 (add_ronly x s))
+  | CAssignSub x body =>
+      (* XCU 2.9.1: a command without a command name completes with the status
+         of the last command substitution performed; the substitution runs in
+         a subshell environment *)
+      match sem_subshell n ex body s with
+      | None => None
+      | Some child =>
+          if is_ronly x s then Some (shell_error ErrAssignment 0 ex saved (set_trace (trace child) s))
+          else Some (done ex saved (set_var x None (join_subshell s child)))
+      end
+  | CSubstArg body =>
+      match sem_subshell n ex body s with
+      | None => None
+      | Some child => Some (Normal, set_status 0 (set_trace (trace child) s))
+      end
+  | CAsync a =>
+      (* XCU 2.9.3 asynchronous lists: run in a subshell environment; the exit
+         status of the list itself is zero; -e does not apply to it *)
+      match sem_subshell n ex (LCons a LNil) s with
+      | None => None
+      | Some child =>
+          Some (Normal, start_job (status child) (set_status 0 (set_trace (trace child) s)))
+      end
   | CCall dc nm args =>
       if via_command dc then
         if bad_redir dc then Some (shell_error ErrOtherRedirection 0 ex saved s)
@@ -311,7 +337,7 @@ Fixpoint sem_cmd (n : nat) (d : nat) (ex : bool) (saved : option N) (c : cmd) (s
    ends, however it ends.  Returns the final state of the copy. *)
 with sem_subshell (n : nat) (ex : bool) (body : clist) (s : state) {struct n} : option state :=
   match n with O => None | S n =>
-  match sem_list n 0 ex None body (set_exit_trap None s) with
+  match sem_list n 0 ex None body (child_state s) with
   | None => None
   | Some (_, c1) => sem_exit_trap n ex c1
   end end
@@ -441,7 +467,7 @@ with sem_multi (n : nat) (ex : bool) (cs : cmds) (s0 acc : state) {struct n} : o
   match cs with
   | CNil => Some acc
   | CCons c cs' =>
-      match sem_cmd n 0 ex None c (set_exit_trap None (set_trace (trace acc) s0)) with
+      match sem_cmd n 0 ex None c (child_state (set_trace (trace acc) s0)) with
       | None => None
       | Some (_, c1) =>
           match sem_exit_trap n ex c1 with
@@ -465,6 +491,8 @@ with sem_multi (n : nat) (ex : bool) (cs : cmds) (s0 acc : state) {struct n} : o
 Fixpoint wf_cmd (d : nat) (infun : bool) (c : cmd) {struct c} : bool :=
   match c with
   | CAssign _ _ | CReadonly _ => true
+  | CAssignSub _ body | CSubstArg body => negb (clist_is_empty body) && wf_list 0 infun body
+  | CAsync a => wf_andor 0 infun a
   | CCall dc nm args =>
       match nm with
       | NBreak | NContinue =>
@@ -553,3 +581,19 @@ Definition spec_result (p : prog) (o : observation) : Prop := exists n, spec_run
 
 Definition observation_eqb (a b : observation) : bool :=
   list_eqb (pair_eqb N.eqb N.eqb) (fst a) (fst b) && N.eqb (snd a) (snd b).
+
+(* Unordered comparison (scripts with asynchronous lists, and the stream run
+   by the real binary): traces as sorted multisets. *)
+Definition item_leb (a b : N * N) : bool :=
+  N.ltb (fst a) (fst b) || (N.eqb (fst a) (fst b) && N.leb (snd a) (snd b)).
+
+Fixpoint insert_item (x : N * N) (l : list (N * N)) : list (N * N) :=
+  match l with
+  | [] => [x]
+  | y :: l' => if item_leb x y then x :: l else y :: insert_item x l'
+  end.
+
+Definition sort_trace (l : list (N * N)) : list (N * N) := fold_right insert_item [] l.
+
+Definition observation_eqb_unordered (a b : observation) : bool :=
+  list_eqb (pair_eqb N.eqb N.eqb) (sort_trace (fst a)) (sort_trace (fst b)) && N.eqb (snd a) (snd b).
